@@ -27,13 +27,14 @@ func init() {
 		Rules: map[string]string{
 			"C10-R1": "decision tables of isBlockedByNets, matchASNs, IsBlocked, isBlockedByAccess",
 			"C10-R2": "Wrap closure: location stored before the decision; blocked edge silent; other edge proceeds",
+			"C10-R4": "question names are normalised before they are matched against access rules",
 			"C10-R3": "call-graph reachability: the access decision itself reaches no answering/resolving/logging/billing/caching sink",
 		},
 	}})
 }
 
 func runC10(c *an.Ctx) {
-	c.Floor("C10-R1", 4)
+	c.Floor("C10-R1", 5)
 	c.Floor("C10-R2", 1)
 
 	// ---- R1a isBlockedByNets
@@ -257,6 +258,57 @@ func runC10(c *an.Ctx) {
 			return fmt.Sprintf("an unblocked request to proceed to rate limiting; got %v", sinkCalls)
 		},
 	})
+	// ---- R1e: the decision sees the connecting client's own location
+	sharedLocation(c, "C10-R1")
+
+	// ---- R4: names are normalised before they are matched against access rules
+	c.Floor("C10-R4", 2)
+	normalised := func(fnKey, what string, find func(fn *ssa.Function) ssa.Value) {
+		fn := c.Fn(fnKey)
+		if fn == nil {
+			c.Und("C10-R4", fnKey, token.NoPos, "anchor not found")
+			return
+		}
+		c.Analysed(fnKey)
+		v := find(fn)
+		if v == nil {
+			c.Und("C10-R4", fnKey, fn.Pos(), "the %s was not found", what)
+			return
+		}
+		ok := false
+		w := &an.Walker{P: c.Prog, NoFieldJoin: true, Opaque: func(*ssa.Function) bool { return true }}
+		w.Visit = func(u ssa.Value) bool {
+			if call, isCall := u.(*ssa.Call); isCall {
+				n := an.Short(an.CalleeName(call))
+				if n == "agdnet.NormalizeQueryDomain" || n == "agdnet.NormalizeDomain" {
+					ok = true
+					return true
+				}
+			}
+			return false
+		}
+		w.ThroughCalls = func(call *ssa.Call) ([]ssa.Value, bool) { return call.Call.Args, true }
+		w.Walk(v)
+		c.Check(ok, "C10-R4", fnKey+" "+what, v.Pos(), "passes through agdnet's domain normalisation (lower case, no trailing dot)",
+			"the name is matched without normalisation: a query in mixed case (0x20 encoding) or with a trailing dot bypasses every blocked-name rule")
+	}
+	normalised("access.(*blockedHostEngine).isBlocked", "host name given to the profile's rule engine", func(fn *ssa.Function) ssa.Value {
+		for _, fs := range c.FieldStores("github.com/AdguardTeam/urlfilter.DNSRequest", "Hostname") {
+			if fs.In == fn {
+				return fs.Val
+			}
+		}
+		return nil
+	})
+	normalised("dnssvc/internal/ratelimitmw.(*Middleware).newRequestInfo", "request host used by the global rules", func(fn *ssa.Function) ssa.Value {
+		for _, fs := range c.FieldStores("agd.RequestInfo", "Host") {
+			if fs.In == fn {
+				return fs.Val
+			}
+		}
+		return nil
+	})
+
 	// ---- R3: nothing that leaves a trace is reachable from the access decision
 	c.Floor("C10-R3", 1)
 	if root := c.Fn("dnssvc/internal/ratelimitmw.(*Middleware).isBlockedByAccess"); root == nil {
